@@ -28,8 +28,8 @@ Lemma tighten_variable_sound a rho n cand :
   box_sound a rho -> in_b cand (rho n) -> box_sound (fst (tighten_variable a n cand)) rho.
 Proof.
   intros H Hc. unfold tighten_variable.
-  destruct (b_intersection (a_tol a) (a_get a n) cand) as [t|] eqn:I.
-  - pose proof (b_intersection_sound _ _ _ _ _ (H n) Hc I) as Ht.
+  destruct (b_intersection (a_ties a) (a_tol a) (a_get a n) cand) as [t|] eqn:I.
+  - pose proof (b_intersection_sound _ _ _ _ _ _ (H n) Hc I) as Ht.
     destruct (_ || _); cbn [fst]; [apply box_sound_insert; assumption|exact H].
   - cbn [fst]. apply box_sound_mark_infeasible. exact H.
 Qed.
@@ -84,8 +84,8 @@ Section S.
     induction e using exp_ind'; intros required a ch v Hbox Hv Hreq;
       cbn [tighten_expression]; destruct (a_infeasible a) eqn:Inf; try exact Hbox;
       pose proof (bounds_of_sound_ev a rho Hbox _ _ Hv) as Hcur;
-      (destruct (b_intersection (a_tol a) (bounds_of a _) required) as [req|] eqn:I;
-       [pose proof (b_intersection_sound _ _ _ _ _ Hcur Hreq I) as Hr; clear I Hreq
+      (destruct (b_intersection (a_ties a) (a_tol a) (bounds_of a _) required) as [req|] eqn:I;
+       [pose proof (b_intersection_sound _ _ _ _ _ _ Hcur Hreq I) as Hr; clear I Hreq
        |cbn [fst]; apply box_sound_mark_infeasible; exact Hbox]).
     - (* Num *) exact Hbox.
     - (* Var *) cbn in Hv. inversion Hv; subst v.
@@ -179,8 +179,8 @@ Section S.
     pose proof (bounds_of_sound_ev a rho Hbox _ _ Er) as Br.
     pose proof (b_sub_sound _ _ _ _ Bl Br) as Bcur.
     pose proof (required_bounds_sound _ _ _ Hc) as Breq.
-    destruct (b_intersection (a_tol a) (b_sub (bounds_of a (c_lhs c)) (bounds_of a (c_rhs c))) (required_bounds (c_cmp c))) as [req|] eqn:I.
-    - pose proof (b_intersection_sound _ _ _ _ _ Bcur Breq I) as Hr.
+    destruct (b_intersection (a_ties a) (a_tol a) (b_sub (bounds_of a (c_lhs c)) (bounds_of a (c_rhs c))) (required_bounds (c_cmp c))) as [req|] eqn:I.
+    - pose proof (b_intersection_sound _ _ _ _ _ _ Bcur Breq I) as Hr.
       assert (S1 : box_sound (fst (tighten_expression (c_lhs c) (b_add req (bounds_of a (c_rhs c))) (a, []))) rho).
       { apply (tighten_expression_sound _ _ a [] l Hbox El). replace l with (l - r + r) by lra. apply b_add_sound; assumption. }
       destruct (tighten_expression (c_lhs c) (b_add req (bounds_of a (c_rhs c))) (a, [])) as [a1 c1]. cbn [fst] in S1.
